@@ -1,5 +1,9 @@
 //! This crate is the core of jxl-oxide that provides JPEG XL renderer.
-use std::sync::{Arc, Mutex};
+use std::sync::Arc;
+#[cfg(not(jxl_oxide_verif))]
+use std::sync::Mutex;
+#[cfg(jxl_oxide_verif)]
+use verif_sync::Mutex;
 
 use jxl_bitstream::Bitstream;
 use jxl_color::{
@@ -24,6 +28,8 @@ mod render;
 mod state;
 mod util;
 mod vardct;
+#[cfg(jxl_oxide_verif)]
+pub mod verif_sync;
 
 pub use error::{Error, Result};
 pub use features::render_spot_color;
@@ -1049,4 +1055,16 @@ struct ReferenceFrames<S: Sample> {
 struct Reference<S: Sample> {
     pub(crate) frame: Arc<IndexedFrame>,
     pub(crate) image: Arc<FrameRenderHandle<S>>,
+}
+
+#[cfg(jxl_oxide_verif)]
+impl RenderContext {
+    /// Protocol state of every frame's render handle (verification only).
+    pub fn verif_handle_states(&self) -> Vec<&'static str> {
+        if self.narrow_modular() {
+            self.renders_narrow.iter().map(|h| h.verif_state_name()).collect()
+        } else {
+            self.renders_wide.iter().map(|h| h.verif_state_name()).collect()
+        }
+    }
 }
